@@ -432,3 +432,110 @@ Proof.
   - apply read_calc_literal_bang, W.
   - apply expr_read_value_bang, W.
 Qed.
+
+(* ------------------------------------------------------------------------------------------ *)
+(* 7. lengths inside the note language: l, r and lettered notes                                 *)
+(* ------------------------------------------------------------------------------------------ *)
+From Sakura.Model Require Import Event Song Token RunCore.
+From Sakura.Proofs Require Import TimeP.
+
+Definition tok_length (t : tok) : list Z :=
+  match t with
+  | TNote _ _ _ len _ _ _ _ _ => len
+  | TNoteN _ len _ _ _ _ => len
+  | TRest _ len => len
+  | TLength len => len
+  | _ => []
+  end.
+
+(* `l` + length.  The reader first looks for ".onNote" etc.: a length that STARTS with '.' (a dotted default, "l.")
+   loses that dot - and a word directly after it - to that test; hence the proviso *)
+Theorem read_length_len tb e r ln : expr_wf e = true -> len_boundary r = true -> eq_char (print e ++ r) 46 = false ->
+  read_length tb (print e ++ r) ln = Ok (Some (TLength (print e)), r, ln).
+Proof.
+  intros W B D. unfold read_length. unfold c_DOT. rewrite D. rewrite (len_token_boundary e r ln W B). reflexivity.
+Qed.
+
+(* `r` + length.  '*' and '-' directly after the r are read by the rest command itself ("r-4" is a backward rest) *)
+Theorem read_rest_len e r ln : expr_wf e = true -> len_boundary r = true ->
+  eq_char (print e ++ r) 42 = false -> eq_char (print e ++ r) 45 = false ->
+  read_rest (print e ++ r) ln = (TRest 1 (print e), fst (skip_space r ln), snd (skip_space r ln)).
+Proof.
+  intros W B S M. unfold read_rest. rewrite S. unfold c_MINUS. rewrite M. rewrite (len_token_boundary e r ln W B).
+  destruct (skip_space r ln) as [s4 ln4]. reflexivity.
+Qed.
+
+(* a lettered note: after the accidentals `fl` (plus, sharp, minus, star), the length field of the token is the expression, whatever
+   follows the boundary (gate, velocity, timing, octave fields, '&').  The first character of the length must not be
+   an accidental itself ("c-4" is c flat, 4) *)
+Theorem read_note_len z fl e r ln : forallb is_flag_char fl = true -> expr_wf e = true -> len_boundary r = true ->
+  is_flag_char (peek0 (print e ++ r)) = false ->
+  tok_length (fst (fst (read_note z (fl ++ print e ++ r) ln))) = print e.
+Proof.
+  intros F W B S. unfold read_note. rewrite (read_note_flags_app fl _ 0 false F S).
+  destruct (flags_val fl 0 false) as [flag natural]. cbn [fst snd].
+  rewrite (len_token_boundary e r ln W B).
+  repeat match goal with
+         | |- context [match ?x with _ => _ end] => destruct x
+         end; reflexivity.
+Qed.
+
+(* ---- and executed: the time pointer moves by the documented value of the expression ---- *)
+Lemma cur_timepos_shift L s : cur_valid s -> tr_timepos (cur_track (shift_song L s)) = tr_timepos (cur_track s) + L.
+Proof. intros V. unfold shift_song. rewrite (t_cur_track_upd_cur s _ V). reflexivity. Qed.
+
+(* `r` + expression: read, then executed in any state with a current track (whatever is pending in it): the pointer
+   advances by denote (time base) (default length of the track) e *)
+Theorem rest_in_program ec e r ln s : expr_wf e = true -> len_boundary r = true ->
+  eq_char (print e ++ r) 42 = false -> eq_char (print e ++ r) 45 = false -> cur_valid s ->
+  let '(t, r', _) := read_rest (print e ++ r) ln in
+  t = TRest 1 (print e) /\ r' = fst (skip_space r ln) /\
+  exists s', step_song ec t s = Ok s' /\
+    tr_timepos (cur_track s') = tr_timepos (cur_track s) + denote (s_timebase s) (tr_length (cur_track s)) e.
+Proof.
+  intros W B S M V. rewrite (read_rest_len e r ln W B S M). split; [reflexivity|]. split; [reflexivity|].
+  eexists. split; [apply rest_is_shift|]. rewrite (cur_timepos_shift _ s V), (calc_length_denotes _ _ e W). reflexivity.
+Qed.
+
+(* `l` + expression: the default length of the track becomes denote tb tb e (omitted parts mean a quarter note) *)
+Theorem length_in_program ec tb e r ln s : expr_wf e = true -> len_boundary r = true -> eq_char (print e ++ r) 46 = false ->
+  cur_valid s ->
+  exists t, read_length tb (print e ++ r) ln = Ok (Some t, r, ln) /\ t = TLength (print e) /\
+  exists s', step_song ec t s = Ok s' /\ tr_length (cur_track s') = denote (s_timebase s) (s_timebase s) e /\
+             tr_timepos (cur_track s') = tr_timepos (cur_track s).
+Proof.
+  intros W B D V. eexists. split; [apply (read_length_len tb e r ln W B D)|]. split; [reflexivity|].
+  cbn [step_song]. eexists. split; [reflexivity|]. rewrite (t_cur_track_upd_cur s _ V).
+  rewrite (calc_length_denotes _ _ e W). split; reflexivity.
+Qed.
+
+(* a lettered note + expression, read and executed in a state of the simulation of C03 (R: nothing reserved, no tie
+   pending, no chord open): the pointer advances by denote (time base) (default length) e, whatever the gate *)
+From Sakura.Spec Require Import NoteSem.
+From Sakura.Proofs Require Import NoteSimDefs NoteSimP NoteExecP.
+
+Lemma note_base_is_base z : is_base (note_base z) = true.
+Proof. unfold note_base. repeat (destruct (_ =? _); [reflexivity|]). reflexivity. Qed.
+
+Theorem note_in_program ec z fl e r ln s q :
+  forallb is_flag_char fl = true -> expr_wf e = true -> note_boundary r ln = true ->
+  is_flag_char (peek0 (print e ++ r)) = false -> R s q ->
+  exists t, read_note z (fl ++ print e ++ r) ln = (t, r, ln) /\ tok_length t = print e /\
+  exists s', step_song ec t s = Ok s' /\
+    tr_timepos (cur_track s') = tr_timepos (cur_track s) + denote (s_timebase s) (tr_length (cur_track s)) e.
+Proof.
+  intros F W NB S HR.
+  assert (S' : is_flag_char (peek0 (print e ++ [] ++ r)) = false) by exact S.
+  pose proof (read_note_contract z fl (print e) [] r ln F (print_len_chars e W) eq_refl S' NB) as RC. cbn [app] in RC.
+  exists (simple_note_tok z fl (print e)). split; [exact RC|]. split; [reflexivity|].
+  set (acc := fst (flags_val fl 0 false)). set (nat_ := snd (flags_val fl 0 false)).
+  assert (WF : wf_cmd (CNote (note_base z) acc nat_ (Some e) None None None None) = true).
+  { cbn [wf_cmd olen_wf ogate_ok ovel_ok otiming_ok ooct_ok is_none]. rewrite note_base_is_base, W. reflexivity. }
+  destruct (step_note _ _ _ _ _ _ _ _ WF ec s q O HR) as (s' & E & HR').
+  exists s'. split; [exact E|].
+  pose proof (R_cur _ _ HR) as (Epos & _ & Elen & _). pose proof (R_cur _ _ HR') as (Epos' & _).
+  pose proof HR as (Htr & Hcur & Hlt & Htb & _).
+  assert (Hpc : (p_cur q < length (p_tracks q))%nat) by (rewrite <- Hcur, <- (Forall2_len _ _ _ Htr); exact Hlt).
+  rewrite Epos', Epos, Elen, Htb. cbn [NoteSem.sem]. unfold play, cur at 1, with_cur. cbn [p_tracks p_cur].
+  rewrite (nth_upd _ _ _ _ Hpc). cbn [t_pos set_pos add_note]. reflexivity.
+Qed.
